@@ -310,12 +310,20 @@ def make_y0(spec, dtype):
 
 def steps_of(trace):
     """The solver's steps as seen through the Brownian proxy: consecutive requests for the same interval (a solver
-    that asks twice for one step, e.g. W and U separately) count as one step."""
-    out = []
+    that asks twice for one step, e.g. W and U separately) count as one step. A fixed-step solver never follows a step
+    by a *shorter* request with the same start, so a request that is (a span probe over the whole call, issued before
+    the loop) is not a step either."""
+    reqs = []
     for req in trace:
         if req[1] is not None and req[0] == req[1]:
             continue  # an empty request (e.g. a shape probe) is not a step
-        if out and out[-1][0] == req[0] and out[-1][1] == req[1]:
+        if reqs and reqs[-1][0] == req[0] and reqs[-1][1] == req[1]:
             continue
+        reqs.append(req)
+    out = []
+    for i, req in enumerate(reqs):
+        nxt = reqs[i + 1] if i + 1 < len(reqs) else None
+        if nxt is not None and nxt[0] == req[0] and nxt[1] is not None and req[1] is not None and nxt[1] < req[1]:
+            continue  # a probe spanning more than the step that follows it from the same start
         out.append(req)
     return out
